@@ -1,6 +1,7 @@
 /- line-protocol handlers for the Cmp / Sort models -/
 import PygModel.Native
 import PygModel.SortTable
+import PygModel.SortCode
 
 namespace Pyg.CmpDriver
 open Pyg
@@ -100,7 +101,34 @@ def handle1 (op : String) (args : List Sexp) : Option String := do
       | _, _ => Option.none
   | _, _ => Option.none
 
+/-- a scalar WITH its spelling (op `sortcode`; read before `normSexp` flattens the spellings): `NI:` / `NI.<t>:` / `NF:<q>` / `NF.<t>:` /
+`XF:nan` are numpy numbers (`NF:nan` is the shared python float `np.nan`), `TS:` a Timestamp, `NAT` / `NAT64` the missing date;
+bools, `np.str_`, `datetime.date` are not modelled there (`none` = bad-op) -/
+def pyCellOf : Sexp → Option PyCell
+  | .atom "NAT" | .atom "NAT64" => some .nat
+  | .atom s =>
+      if s.startsWith "TS:" then (s.drop 3).toString.toInt?.map PyCell.ts
+      else if s.startsWith "NS:" || s.startsWith "NB:" || s.startsWith "B:" || s.startsWith "DT:" then Option.none
+      else if s == "NF:nan" then some (.py .nan)
+      else if s.startsWith "NI" || s.startsWith "NF" || s.startsWith "XF:" then
+        match normSexp (.atom s) with
+        | .atom t => (Cell.parse t).map PyCell.np
+        | _ => Option.none
+      else (Cell.parse s).map PyCell.py
+  | _ => Option.none
+
+def renderPyCell : PyCell → String
+  | .py c => (Val.cell c).render
+  | .np c => (Val.cell c).render
+  | .ts us => s!"T:{us}"
+  | .nat => "NAT"
+
 def handle (s : St) (op : String) (args : List Sexp) : Option (St × String) :=
-  (handle1 op (args.map normSexp)).map fun r => (s, r)
+  match op, args with
+  | "sortcode", [.node (.atom "L" :: xs)] => do
+      -- `sort(xs)` as the code runs it: the return statement reached and the result
+      let cs ← xs.mapM pyCellOf
+      pure (s, s!"ok (T S:{hexEncode (codeBranch cs).name} (L" ++ String.join ((codeSort cs).map fun c => " " ++ renderPyCell c) ++ "))")
+  | _, _ => (handle1 op (args.map normSexp)).map fun r => (s, r)
 
 end Pyg.CmpDriver
